@@ -210,4 +210,103 @@ def convertToUnitsElemF {K : Type} [Mul K] [Sub K] [BEq K] [OfNat K 0] (N : Nump
     | .error e => .error e
     | .ok m => .ok (new, inplaceValueF A m new e f o)
 
+/-! ### the offset step (`if offset:` — temperatures, lat/lon) per factor kind -/
+
+/-- Python type of `ratio * old_baseoffset - new_baseoffset` (`_get_conversion_factor`): the base
+    offsets of the unit table are Python numbers, so the offset has the type of the ratio -/
+def offsetKind (fk : FactorKind) : FactorKind := fk
+
+/-- how a route subtracts a truthy offset:
+    `np.subtract(ret, offset, ret)` (in_units, convert_to_units: the result is written back into the
+    buffer, which keeps its dtype) or `ret = ret - offset` (in_base: a new array of NumPy's promoted
+    dtype) -/
+inductive OffsetStep
+  | outBuffer | rebind
+deriving DecidableEq, Repr, Inhabited
+
+/-- the form of the offset step in `in_units`, `in_base`, `convert_to_units` (ast) -/
+structure OffsetRules where
+  copyStep : OffsetStep
+  inBaseStep : OffsetStep
+  inplaceStep : OffsetStep
+deriving Repr
+
+/-- dtype after the offset step applied to data of dtype `res` with an offset of kind `ok`
+    (promotion of `array - scalar` = promotion of `array * scalar`, checked by the translator) -/
+def offsetStageDtype (N : NumpyFacts) (F : FactorFacts) (step : OffsetStep) (ok : FactorKind)
+    (res : Dtype) : Except Err Dtype :=
+  match mulFactorDtype F ok res with
+  | .error e => .error e
+  | .ok mo =>
+    match step with
+    | .rebind => .ok mo
+    | .outBuffer => if N.canCastSameKind.contains (mo, res) then .ok res else .error .TypeError
+
+/-- a route followed by the offset step (`hasOffset` = the offset is truthy) -/
+def withOffset (N : NumpyFacts) (F : FactorFacts) (step : OffsetStep) (fk : FactorKind) (hasOffset : Bool)
+    (r : Except Err Dtype) : Except Err Dtype :=
+  match r with
+  | .error e => .error e
+  | .ok res => if hasOffset then offsetStageDtype N F step (offsetKind fk) res else .ok res
+
+/-- the six same-dimension routes for a conversion with a truthy offset (`hasOffset`), per factor kind -/
+def routeDtypeO (N : NumpyFacts) (P : DtypeRules) (F : FactorFacts) (R : FactorRules) (O : OffsetRules)
+    (fk : FactorKind) (hasOffset : Bool) (r : Route) (d : Dtype) (isQuantity : Bool) : Except Err Dtype :=
+  match r with
+  | .to | .inUnits => withOffset N F O.copyStep fk hasOffset (copyDtypeStaged N P F R.copyCastKinds.contains fk d)
+  | .toValue =>
+    match toValueOutOf N P (withOffset N F O.copyStep fk hasOffset (copyDtypeStaged N P F R.copyCastKinds.contains fk d)) isQuantity with
+    | .error e => .error e
+    | .ok (.ndarray x) => .ok x
+    | .ok .pyfloat => .ok float64
+    | .ok .pycomplex => .ok ⟨.c, 16⟩
+  | .inBase => withOffset N F O.inBaseStep fk hasOffset (inBaseDtypeStaged N P F R.inBaseCastKinds.contains fk d)
+  | .convertToUnits | .convertToBase => withOffset N F O.inplaceStep fk hasOffset (convertToUnitsDtypeF N P F fk d)
+  | .toEquivalent | .convertToEquivalent => routeDtype N P r d isQuantity
+
+section offsetvalues
+variable {K : Type} [Mul K] [Sub K] [BEq K] [OfNat K 0] (A : NumOps K)
+
+/-- the offset step on one element: the subtraction runs in the promoted dtype `mo`; with an out
+    buffer the difference is rounded back to the buffer's dtype `res` -/
+def offsetStageValue (step : OffsetStep) (mo res : Dtype) (ret : Elem K) (o : Option K) : Elem K :=
+  match offsetTruthy o with
+  | none => ret
+  | some v =>
+    match step with
+    | .rebind => subIn A mo ret v
+    | .outBuffer => castElem A res (subIn A mo ret v)
+
+end offsetvalues
+
+/-- copy route / `in_base` on one element with factor and offset of kind `fk` -/
+def inUnitsElemO {K : Type} [Mul K] [Sub K] [BEq K] [OfNat K 0] (N : NumpyFacts) (P : DtypeRules)
+    (F : FactorFacts) (castKinds : List DKind) (step : OffsetStep) (A : NumOps K) (fk : FactorKind) (d : Dtype)
+    (e : Elem K) (f : K) (o : Option K) : Except Err (Dtype × Elem K) :=
+  match copyDtypeStaged N P F castKinds.contains fk d, mulFactorDtype F fk d, inUnitsDtype N P d with
+  | .ok res, .ok m, .ok new =>
+    let prod := if castKinds.contains d.kind then castElem A new (mulIn A m e f) else mulIn A m e f
+    match withOffset N F step fk (offsetTruthy o).isSome (.ok res), mulFactorDtype F (offsetKind fk) res with
+    | .ok out, .ok mo => .ok (out, offsetStageValue A step mo res prod o)
+    | .error e, _ => .error e
+    | _, .error e => .error e
+  | .error e, _, _ => .error e
+  | _, .error e, _ => .error e
+  | _, _, .error e => .error e
+
+/-- in-place route on one element with factor and offset of kind `fk` -/
+def convertToUnitsElemO {K : Type} [Mul K] [Sub K] [BEq K] [OfNat K 0] (N : NumpyFacts) (P : DtypeRules)
+    (F : FactorFacts) (step : OffsetStep) (A : NumOps K) (fk : FactorKind) (d : Dtype)
+    (e : Elem K) (f : K) (o : Option K) : Except Err (Dtype × Elem K) :=
+  match convertToUnitsDtypeF N P F fk d with
+  | .error e => .error e
+  | .ok new =>
+    match mulFactorDtype F fk new, mulFactorDtype F (offsetKind fk) new,
+          withOffset N F step fk (offsetTruthy o).isSome (.ok new) with
+    | .ok m, .ok mo, .ok out =>
+      .ok (out, offsetStageValue A step mo new (castElem A new (mulIn A m (castElem A new e) f)) o)
+    | .error e, _, _ => .error e
+    | _, .error e, _ => .error e
+    | _, _, .error e => .error e
+
 end Unyt
